@@ -49,19 +49,18 @@ Theorem C15_cache_hit_equals_miss :
 Proof. exact cache_hit_equals_miss_reachable. Qed.
 Print Assumptions C15_cache_hit_equals_miss.
 
-(* the instance given by the regenerated table meets the premise except for the cells listed as open leaks
-   (bound: the n_writes writes of the table): no other cell written by the package is classified Leak *)
-Theorem C15_table_has_no_leak_partial : forall c, In c ws_table -> mem_s c open_leaks = false -> kl_table c <> Leak.
-Proof. exact table_no_leak. Qed.
-Print Assumptions C15_table_has_no_leak_partial.
+(* the instance given by the regenerated table meets the premise: no cell written by the package is classified
+   Leak (bound: the n_writes writes of the table) *)
+Theorem C15_table_has_no_leak : forall c, In c ws_table -> kl_table c <> Leak.
+Proof. exact table_no_leak_full. Qed.
+Print Assumptions C15_table_has_no_leak.
 
-(* the full statement "no written cell is a Leak" is refuted today: the renderer copies the per-document
-   footnote_sort / footnote_transition onto document.settings under the names of the global options; when one
-   settings object is shared by several publish calls the next document's create_myst_config reads them back *)
-Theorem C15_table_has_no_leak_refuted :
-  open_leaks <> [] /\ forallb (fun c => mem_s c ws_table && klass_eqb (kl_table c) Leak) open_leaks = true.
+(* cells listed as open leaks (none today; until 0676245 the two document.settings.myst_footnote_* writes) are
+   written cells classified Leak: the list cannot be used to hide a cell that is not a leak *)
+Theorem C15_open_leaks_are_leaks :
+  forallb (fun c => mem_s c ws_table && klass_eqb (kl_table c) Leak) open_leaks = true.
 Proof. exact open_leaks_are_leaks. Qed.
-Print Assumptions C15_table_has_no_leak_refuted.
+Print Assumptions C15_open_leaks_are_leaks.
 
 (* the premise is needed: with one Leak cell (the content written depends on the old content,
    as Include.option_spec did before the repair) there are a history and an input whose output
